@@ -121,8 +121,8 @@ func (evkg EvaluationKeyGenProtocol) GenShare(skIn, skOut *rlwe.SecretKey, crp E
 		return fmt.Errorf("cannot GenShare: min(skIn, skOut) LevelQ < shareOut LevelQ")
 	}
 
-	if shareOut.LevelP() != levelP {
-		return fmt.Errorf("cannot GenShare: min(skIn, skOut) LevelP != shareOut LevelP")
+	if levelP > utils.Min(skIn.LevelP(), skOut.LevelP()) {
+		return fmt.Errorf("cannot GenShare: min(skIn, skOut) LevelP < shareOut LevelP")
 	}
 
 	if shareOut.BaseRNSDecompositionVectorSize() != crp.BaseRNSDecompositionVectorSize() {
